@@ -551,9 +551,177 @@ def console_args(g):
     return "\n".join(rules) + "\n"
 
 
+
+# sizes around the growth steps of the runtime's internal buffers (for-in key snapshot: 128 slots; field table: 16/32/256; value caches: 128 per
+# size class; format buffers 8192 / 512; rio buffers 2048) — a pointer held across a reallocation, or a count tested against the wrong bound,
+# shows only when such a step is crossed
+LC_SIZES = [5, 15, 16, 17, 31, 32, 33, 100, 120, 126, 127, 128, 129, 130, 135, 140, 200, 255, 256, 257, 300, 511, 513, 1000, 2100]
+LC_VALS = ["i", "i", '"v" i', '@b"ab"', '@b"abcdefg"', '@b"x" i', '"s"', "i * 1.5", "(4611686018427387904 + i)", '"0123456789abcdef" i', "@b'z'", "'c'", '""', '@b""',
+           'sprintf("%020d", i)', "hawk::array(i)", 'hawk::map("k", i)', "@nil", '(@b"abcdefghijklmnopqrstuvwxyz" i)', 'substr("abcdefghijklmnopqrstuvwxyz", 1, i % 27)',
+           'str::tombs(substr("abcdefghijklmnopqrstuvwxyz", 1, i % 27))']
+
+
+def large_containers(g):
+    """containers, records and strings with hundreds to thousands of elements built by loops, then used by several consumers at once:
+    nested for-in (same / different container, inner loop in a called function, recursion), deletion during iteration, wholesale release
+    followed by new values of the neighbouring size class, asort/split/splita of large inputs, records with many fields, long formatted
+    output and long lines through files"""
+    r = g.r
+    g.f("t:large-containers")
+    cn = ["ma", "mb", "mc"]
+    fn = []
+    fn.append("function lcfill(&c, n, kind) { @local i; for (i = 0; i < n; i++) { if (kind == 0) c[i] = i; else if (kind == 1) c[\"k\" i] = \"v\" i; else c[i] = @b\"ab\"; } return n; }")
+    fn.append("function lcwalk(c, lim) { @local k, n; n = 0; for (k in c) { n++; if (lim > 0 && n >= lim) break; } return n; }")
+    fn.append("function lcrec(c, d) { @local k, n; n = 0; if (d <= 0) return 0; for (k in c) { n += lcrec(c, d - 1) + 1; if (n > 2000) break; } return n; }")
+    st = []
+    sizes = {}
+
+    def size():
+        return g.pick(LC_SIZES)
+
+    def build(c):
+        n = size()
+        sizes[c] = n
+        q = r.random()
+        if q < 0.55:
+            g.f("lc:build-loop")
+            return "for (i = 0; i < %d; i++) %s[%s] = %s;" % (n, c, g.pick(["i", "i", '"k" i', "i, 1", "-i", 'sprintf("%05d", i)']), g.pick(LC_VALS))
+        if q < 0.65:
+            g.f("lc:build-array")
+            return "%s = hawk::array(); for (i = 0; i < %d; i++) %s[i%s] = %s;" % (c, n, c, g.pick(["", "", " * 2", " + 1"]), g.pick(LC_VALS))
+        if q < 0.80:
+            g.f("lc:build-split")
+            return 'ls = ""; for (i = 0; i < %d; i++) ls = ls "w" i %s; nn = %s(ls, %s%s);' % (
+                n, g.pick(['" "', '":"', '"  "', '",;"']), g.pick(["split", "str::split", "str::splita"]), c, g.pick(["", ', ":"', ', /[ :,;]+/', ', " "']))
+        if q < 0.9:
+            g.f("lc:build-fn")
+            return "lcfill(%s, %d, %d);" % (c, n, r.randrange(3))
+        g.f("lc:build-match")
+        return 'ls = ""; for (i = 0; i < %d; i++) ls = ls "ab"; nn = gsub(/a/, "&&", ls); %s[1] = ls; %s[2] = length(ls);' % (n, c, c)
+    used = []
+    for _ in range(g.pick([1, 2, 2, 3])):
+        c = g.pick(cn)
+        used.append(c)
+        st.append(build(c))
+    for _ in range(g.pick([1, 2, 3, 4])):
+        a, b = g.pick(used), g.pick(used + cn)
+        q = r.random()
+        if q < 0.22:
+            g.f("lc:nested-forin")
+            lim = g.pick(["", "", " if (++n1 > %d) break;" % g.pick([1, 2, 5, 50])])
+            inner = g.pick(["for (k2 in %s) { n2++; }" % b, "n2 += lcwalk(%s, %s);" % (b, g.pick(["0", "0", "1", "3"])), "n2 += lcrec(%s, 2);" % b,
+                            "for (k2 in %s) { for (k3 in %s) { n2++; break; } }" % (b, g.pick(used)), "nn = split(\"a b c\", tmp); for (k2 in tmp) for (k3 in %s) { n2++; }" % b])
+            if sizes.get(a, 0) * sizes.get(b, 5) > 60000:
+                lim = " if (++n1 > 20) break;"
+            st.append("n1 = 0; for (k1 in %s) { %s%s x = x k1; }" % (a, inner, lim))
+        elif q < 0.34:
+            g.f("lc:delete-while-iterating")
+            st.append("for (k1 in %s) { %s }" % (a, g.pick(["delete %s[k1];" % a, "delete %s;" % a, "if (k1 %% 2) delete %s[k1]; else %s[k1 \"x\"] = 1;" % (a, a),
+                                                           "@reset %s;" % a, "%s[k1, 1] = k1; delete %s[k1];" % (b, a), "delete %s; for (k2 in %s) n2++;" % (a, b)])))
+        elif q < 0.50:
+            g.f("lc:release-then-next-class")
+            rel = g.pick(["delete %s;" % a, "@reset %s;" % a, "%s = @nil;" % a, "for (k1 in %s) delete %s[k1];" % (a, a), "%s = hawk::map();" % a, "hawk::gc();"])
+            nxt = g.pick(['y1 = @b"abcdefgh"; y2 = @b"abcdefghi" x; y3 = @b"1234567";', 'for (i = 0; i < %d; i++) %s[i] = %s;' % (g.pick([3, 130, 260]), b, g.pick(LC_VALS)),
+                          'y1 = "abcdefghijklmnop"; y2 = y1 "q"; y3 = substr(y2, 2);', "y1 = 4611686018427387904 + 1; y2 = y1 * 2; y3 = 1.5 + y1;",
+                          'for (i = 0; i < 140; i++) z[i] = @b"abcdefghij"; delete z; y1 = @b"abcdefghijklmnopqrs";'])
+            st.append("%s %s print y1, y2, y3, length(%s);" % (rel, nxt, b))
+        elif q < 0.60:
+            g.f("lc:asort")
+            st.append("nn = %s(%s%s); print nn;" % (g.pick(["asort", "asorti"]), a, g.pick(["", ", " + b, ", " + a, ", %s, \"lccmp\"" % b])))
+        elif q < 0.72:
+            g.f("lc:many-fields")
+            n = size()
+            st.append(g.pick(['ls = ""; for (i = 0; i < %d; i++) ls = ls i " "; $0 = ls; print NF, $NF, $(NF-1); $%d = "x"; NF = %d; print NF, length($0);' % (n, g.pick([1, n, n + 1, n + 40]), g.pick([n - 1, n + 1, 2 * n + 1, 1])),
+                              'NF = %d; $%d = "y"; print NF; $0 = "a b"; print NF; $%d = "z"; print NF;' % (n, n + 1, g.pick([n, 3 * n])),
+                              'for (i = 1; i <= %d; i++) $i = i; print NF; for (i = NF; i > 0; i -= 7) $i = ""; $0 = $0; print NF;' % n]))
+        elif q < 0.84:
+            g.f("lc:long-format")
+            n = g.pick([500, 511, 512, 513, 2047, 2048, 2049, 4096, 8191, 8192, 8193, 10000])
+            st.append(g.pick(['y1 = sprintf("%%%dd|%%-%ds|", 5, "ab"); print length(y1);' % (n, n), 'y1 = sprintf("%%.%df", 1.5); print length(y1);' % min(n, 4000),
+                              'ls = sprintf("%%%ds", "x"); print ls > "f1"; close("f1"); (getline y2 < "f1"); print length(y2); close("f1");' % n,
+                              'printf "%%%dd %%s\\n", 1, %s[1] > "/dev/null";' % (n, a), 'ls = sprintf("%%%ds", "x"); y1 = ls ls; y2 = y1 y1; print length(y2), index(y2, "x");' % n,
+                              'ls = sprintf("%%%ds", "x"); print ls | "cat"; close("cat"); print toupper(ls) tolower(ls) > "/dev/null";' % n]))
+        else:
+            g.f("lc:length-in")
+            st.append("print length(%s), (%d in %s), (\"k%d\" in %s), lcwalk(%s, 0);" % (a, size(), a, size(), a, b))
+    st.append("print n1, n2, length(x);")
+    ctx = g.pick(["BEGIN", "BEGIN", "BEGIN", "", "END"])
+    fn.append("function lccmp(a, b) { return (a < b) ? -1 : (a > b); }")
+    return "\n".join(fn) + "\n%s { %s }\n" % (ctx, " ".join(st))
+
+
+PE_INT = ["1", "0", "2", "7", "9223372036854775807", "010", "0x1F"]
+PE_FLT = ["2.5", "0.0", ".5", "1e3", "3.0", "1e300"]
+PE_STR = ['"abc"', '""', '"1"', "'c'", '@b"ab"', "@b'x'"]
+PE_OTH = ["x", "$1", "NF", "m[1]", "f(1)", "(1)", "(2.5)", "-1", "!x", "@nil", "/re/", "length()", "x++", "++x"]
+PE_OPS = [["+", "-"], ["*", "/", "%", "\\"], ["**", "^"], [" "], ["%%"], ["<", "<=", ">", ">=", "==", "!=", "===", "!=="], ["~", "!~"], ["&&"], ["||"], ["&", "^^", "<<", ">>"],
+          ["in"], ["=", "+=", "-=", "*=", "/=", "%=", "**="], ["?"], [","]]
+PE_LEX = ['"abc', '"abc\\', "'a", "'ab'", "''", '@b"abc', "@b'", "@b", "\udc80", "\udcff", "\udcc3", "\x01", "\x7f", "@unknownword", "@", "@b'ab'", '"\\x', '"\\u12', '"\\U0011', "`", "0x", "1e+", "1.2.3",
+          "/abc", "/a\\", "/[a", "$", "$$", "#", "", "\\", "\\ x", "::", "x::", "str::", "str::nosuch", "@pragma", "@include", '@include "nofile"', "@argv", "@argc[", "\r", "\t\x0b\x0c"]
+PE_SYN = [")", "]", "}", ";", ";;", "*", "/ 2", "in", "in in", "?", ":", ",", "function", "BEGIN", "END", "else", "while", "getline", "print", "printf", "delete", "return", "(", "((", "[",
+          "{", "=", "==", "!", "~", "++", "--", ". 5", ")(", "x y z (", "@local x", "@global y", "next", "exit", "1 2 3 )", "f(", "m[", "$("]
+
+
+def parse_error_after_prefix(g):
+    """a valid (often constant-foldable) expression prefix of every operator family and operand-type order, in every syntactic position,
+    then an operator and — at that operator boundary — a lexical error (unterminated literal, stray byte, unknown @word, bad escape, EOF)
+    or a syntax error: the parser's error exits must release what the prefix built exactly once"""
+    r = g.r
+    g.f("t:parse-error-after-prefix")
+    pools = [PE_INT, PE_FLT, PE_STR, PE_OTH]
+
+    def operand():
+        q = r.random()
+        pool = PE_INT if q < 0.35 else PE_FLT if q < 0.65 else PE_STR if q < 0.8 else PE_OTH
+        return g.pick(pool)
+    fam = g.pick(PE_OPS[:2] * 4 + PE_OPS)
+    if r.random() < 0.5:
+        # a chain of literals only (what the constant folder rewrites in place), every order of operand types, error right behind it
+        g.f("pe:fold-chain")
+        kinds = g.pick([(PE_INT, PE_FLT), (PE_INT, PE_FLT), (PE_FLT, PE_INT), (PE_FLT, PE_INT), (PE_INT, PE_INT), (PE_FLT, PE_FLT), (PE_STR, PE_INT), (PE_INT, PE_STR),
+                        (PE_FLT, PE_STR), (PE_STR, PE_FLT), (PE_STR, PE_STR)])
+        n = g.pick([2, 2, 2, 3, 3, 4])
+        lead = [g.pick(g.pick([PE_INT, PE_FLT, PE_STR])) for _ in range(n - 2)]
+        ops_ = lead + [g.pick(kinds[0]), g.pick(kinds[1])]
+        toks = [ops_[0]]
+        for o in ops_[1:]:
+            toks += [g.pick(fam), o]
+    else:
+        n = g.pick([1, 2, 2, 3, 3, 4, 6])
+        toks = [operand()]
+        for _ in range(n - 1):
+            op = g.pick(fam) if r.random() < 0.8 else g.pick(g.pick(PE_OPS))
+            toks += [op, operand()]
+            if op == "?":
+                toks += [":", operand()]
+        if r.random() < 0.25:
+            k = r.randrange(0, len(toks), 2)
+            toks[k] = "(" + toks[k]
+            toks[-1] = toks[-1] + ")"
+    lastop = g.pick(fam) if r.random() < 0.75 else g.pick(g.pick(PE_OPS))
+    if r.random() < 0.85:
+        err = g.pick(PE_LEX); g.f("pe:lexical")
+    else:
+        err = g.pick(PE_SYN); g.f("pe:syntax")
+    tail = g.pick(["", "", "", " }", " ; }", ") }", " + 1 }", "\n", " 2.5"])
+    expr = " ".join(toks) + " " + lastop + " " + err + tail
+    ctx = g.pick(["BEGIN { print %s", "BEGIN { x = %s", "BEGIN { x = y = %s", "function f(a) { return %s", "%s", "%s { print }", "BEGIN { f(%s", "BEGIN { m[%s", "BEGIN { if (%s",
+                  "BEGIN { while (%s", "BEGIN { printf \"%%d %%s\", %s", "BEGIN { print 1, %s", "BEGIN { for (i = %s", "BEGIN { for (;;%s", "BEGIN { x = (%s", "BEGIN { print > %s",
+                  "BEGIN { getline < %s", "BEGIN { %s | getline", "BEGIN { delete m[%s", "BEGIN { $(%s", "BEGIN { x = -%s", "BEGIN { x = !%s", "BEGIN { return %s", "BEGIN { exit %s",
+                  "BEGIN { do { } while (%s", "BEGIN { x = z ? %s", "BEGIN { x = z ? 1 : %s", "BEGIN { x = substr(\"abc\", %s", "@global g; BEGIN { g = %s", "BEGIN { @local l; l = %s",
+                  "function f(a, ...) { return @argv[%s", "BEGIN { if (1) x = 1; else x = %s", "/%s", "BEGIN { x = hawk::array(%s", "BEGIN { (%s", "NR == %s", "BEGIN { x = 1; } END { y = %s",
+                  "function f(a) { return a; } BEGIN { print f(1) + %s"])
+    pre = g.pick(["", "", "", "@pragma implicit on;\n", "function h(a, b) { return a + b; }\n", "BEGIN { a = 1 + 2.5; b = \"x\" \"y\"; }\n", "@global g1;\n"])
+    return pre + (ctx % expr) if "%s" in ctx else pre + ctx + expr
+
+
 def targeted(rng):
     g = Gen(rng)
-    k = rng.randrange(24)
+    k = rng.randrange(34)
+    if k >= 28:
+        return g, parse_error_after_prefix(g)
+    if k >= 24:
+        return g, large_containers(g)
     if k >= 22:
         return g, console_args(g)
     if k >= 18:
